@@ -71,3 +71,36 @@ package proto
 //@ pure
 //@ reads fields(BecomeLeaderRequest)
 //@ ensures x != nil ==> result == x.ReplicationFactor
+
+// A pooled log-entry value. UnmarshalVT merges into its receiver (repeated fields are
+// appended to), so a reused object must be reset first: `clean` is 1 exactly when the
+// object has been reset (or freshly taken from the pool) and not unmarshalled into since.
+//
+//@ func LogEntryValueFromVTPool
+//@ trusted
+//@ modifies nothing
+//@ ensures result != nil && fresh(result) && ghost(clean, result) == 1
+//@ note trusted: objects are reset before they re-enter the pool (ReturnToVTPool calls ResetVT)
+
+//@ func LogEntryValue.ResetVT(m)
+//@ trusted
+//@ modifies fields(LogEntryValue), ghost(clean, m)
+//@ ensures ghost(clean, m) == 1
+
+//@ func LogEntryValue.UnmarshalVT(m, dAtA) (err)
+//@ trusted
+//@ modifies fields(LogEntryValue), ghost(clean, m)
+//@ ensures ghost(clean, m) == 0
+
+//@ func LogEntryValue.ReturnToVTPool(m)
+//@ trusted
+//@ modifies fields(LogEntryValue), ghost(clean, m)
+
+//@ func LogEntryValue.GetRequests
+//@ trusted
+//@ pure
+
+//@ func LogEntryValue.MarshalVT
+//@ trusted
+//@ pure
+//@ nondet
